@@ -33,3 +33,9 @@ Proof. vm_compute. reflexivity. Qed.
 Print Assumptions returned_names_ok.
 Print Assumptions collapse_path_ok.
 Print Assumptions join_does_not_climb.
+(* ---- the whole member list (P_MembersAll.v): every header plain iteration yields on ANY
+   stream (P_CliMembers.stream_headers) has a name without '/' and a path of real names ---- *)
+From Lhasa Require P_MembersAll.
+Theorem stream_headers_names_ok : ltac:(let t := type of P_MembersAll.stream_headers_names_ok in exact t).
+Proof. exact P_MembersAll.stream_headers_names_ok. Qed.
+Print Assumptions stream_headers_names_ok.
